@@ -153,9 +153,13 @@ class PVLDecoder(object):
         # and pass if it fails:
         try:
             self.decode_datetime(value)
-            raise ValueError
         except ValueError:
             pass
+        else:
+            raise ValueError(
+                "Expected an Unquoted String, but this can be decoded as "
+                f'a date or time: "{value}".'
+            )
 
         return str(value)
 
